@@ -88,26 +88,29 @@ theorem suffix_nil (st : NumState) : Suffix st [] ↔ st.accepting = true := by
   cases st <;> simp only [Suffix, NumState.accepting]
   · -- init
     constructor
-    · intro h; cases h with
-      | pos i f e hi => cases hi <;> simp at *
+    · intro h
+      generalize hw : ([] : List Char) = w at h
+      cases h with
+      | pos i f e hi => cases hi <;> simp at hw
+      | neg i f e hi => simp at hw
     · intro h; cases h
   · constructor
     · rintro ⟨i, f, x, h, hi, _, _⟩
       cases hi <;> simp at h
     · intro h; cases h
-  · exact ⟨fun _ => rfl, fun _ => ⟨[], [], rfl, .none, .none⟩⟩
-  · exact ⟨fun _ => rfl, fun _ => ⟨[], [], [], rfl, AllDigits.nil, .none, .none⟩⟩
+  · exact ⟨fun _ => trivial, fun _ => ⟨[], [], rfl, .none, .none⟩⟩
+  · exact ⟨fun _ => trivial, fun _ => ⟨[], [], [], rfl, AllDigits.nil, .none, .none⟩⟩
   · constructor
     · rintro ⟨c, ds, x, h, _⟩; simp at h
     · intro h; cases h
-  · exact ⟨fun _ => rfl, fun _ => ⟨[], [], rfl, AllDigits.nil, .none⟩⟩
+  · exact ⟨fun _ => trivial, fun _ => ⟨[], [], rfl, AllDigits.nil, .none⟩⟩
   · constructor
     · intro h; cases h
     · intro h; cases h
   · constructor
     · rintro ⟨c, ds, h, _⟩; cases h
     · intro h; cases h
-  · exact ⟨fun _ => rfl, fun _ => AllDigits.nil⟩
+  · exact ⟨fun _ => trivial, fun _ => AllDigits.nil⟩
 
 /-- soundness of one transition -/
 theorem suffix_step_sound {ctx : Ctx} {st st' : NumState} {c : Char} {w : List Char}
@@ -126,6 +129,7 @@ theorem suffix_step_sound {ctx : Ctx} {st st' : NumState} {c : Char} {w : List C
         · rename_i hc; cases ht
           obtain ⟨ds, f, x, rfl, hd, hf, hx⟩ := hw
           have := GNumber.pos (c :: ds) f x (.nz c ds hc hd) hf hx
+          simp only [Suffix]
           simpa using this
         · cases ht
   · -- firstDigit
@@ -193,5 +197,158 @@ theorem suffix_step_sound {ctx : Ctx} {st st' : NumState} {c : Char} {w : List C
     split at ht
     · rename_i hc; cases ht; exact AllDigits.cons hc hw
     · split at ht <;> cases ht
+
+end JsonVerif
+
+namespace JsonVerif
+
+theorem gint_cons {c : Char} {w : List Char} {i r : List Char} (hi : GInt i) (h : c :: w = i ++ r) :
+    (c = '0' ∧ i = ['0'] ∧ w = r) ∨ (isDigit19 c = true ∧ ∃ ds, i = c :: ds ∧ AllDigits ds ∧ w = ds ++ r) := by
+  cases hi with
+  | zero => simp at h; exact .inl ⟨h.1, rfl, h.2⟩
+  | nz c' ds hc hd => simp at h; obtain ⟨rfl, rfl⟩ := h; exact .inr ⟨hc, ds, rfl, hd, rfl⟩
+
+theorem gexp_cons {c : Char} {w : List Char} (h : GExp (c :: w)) : isE c = true ∧ GExp ('e' :: w) := by
+  cases h with
+  | plain _ c' ds he hc hd => exact ⟨he, .plain 'e' c' ds (by decide) hc hd⟩
+  | signed _ sg c' ds he hs hc hd => exact ⟨he, .signed 'e' sg c' ds (by decide) hs hc hd⟩
+
+/-- `f ++ x` with `GFrac f`, `GExp x`, starting with `c` -/
+theorem frac_exp_cons {c : Char} {w f x : List Char} (hf : GFrac f) (hx : GExp x) (h : c :: w = f ++ x) :
+    (c = '.' ∧ ∃ c' ds, w = c' :: ds ++ x ∧ isDigit c' = true ∧ AllDigits ds) ∨
+    (isE c = true ∧ GExp ('e' :: w)) := by
+  cases hf with
+  | some c' ds hc hd => simp at h; obtain ⟨rfl, rfl⟩ := h; exact .inl ⟨rfl, c', ds, by simp, hc, hd⟩
+  | none => simp at h; subst h; exact .inr (gexp_cons hx)
+
+/-- completeness of one transition: what the grammar allows, the automaton follows -/
+theorem suffix_step_complete (ctx : Ctx) {st : NumState} {c : Char} {w : List Char}
+    (hw : Suffix st (c :: w)) : ∃ st', numTrans ctx st c = .to st' ∧ Suffix st' w := by
+  cases st <;> simp only [Suffix] at hw
+  · -- init
+    generalize hcw : c :: w = t at hw
+    cases hw with
+    | neg i f e hi hf he =>
+      simp at hcw; obtain ⟨rfl, rfl⟩ := hcw
+      exact ⟨.firstDigit, by simp [numTrans], i, f, e, by simp, hi, hf, he⟩
+    | pos i f e hi hf he =>
+      rw [List.append_assoc] at hcw
+      rcases gint_cons hi hcw with ⟨rfl, rfl, rfl⟩ | ⟨hc, ds, rfl, hd, rfl⟩
+      · exact ⟨.zero, by simp [numTrans], f, e, rfl, hf, he⟩
+      · have := digit_ne (d19_digit hc)
+        exact ⟨.nonZero, by simp [numTrans, this.1, d19_ne0 hc, hc], ds, f, e, by simp, hd, hf, he⟩
+  · -- firstDigit
+    obtain ⟨i, f, x, h, hi, hf, hx⟩ := hw
+    rw [List.append_assoc] at h
+    rcases gint_cons hi h with ⟨rfl, rfl, rfl⟩ | ⟨hc, ds, rfl, hd, rfl⟩
+    · exact ⟨.zero, by simp [numTrans], f, x, rfl, hf, hx⟩
+    · exact ⟨.nonZero, by simp [numTrans, d19_ne0 hc, hc], ds, f, x, by simp, hd, hf, hx⟩
+  · -- zero
+    obtain ⟨f, x, h, hf, hx⟩ := hw
+    rcases frac_exp_cons hf hx h with ⟨rfl, c', ds, rfl, hc', hd⟩ | ⟨he, hx'⟩
+    · exact ⟨.fracFirst, by simp [numTrans], c', ds, x, rfl, hc', hd, hx⟩
+    · exact ⟨.expSign, by simp [numTrans, (isE_ne he).1, he], hx'⟩
+  · -- nonZero
+    obtain ⟨ds, f, x, h, hd, hf, hx⟩ := hw
+    cases ds with
+    | cons d ds' =>
+      simp at h; obtain ⟨rfl, rfl⟩ := h
+      exact ⟨.nonZero, by simp [numTrans, hd.head], ds', f, x, by simp, hd.tail, hf, hx⟩
+    | nil =>
+      simp only [List.nil_append] at h
+      rcases frac_exp_cons hf hx h with ⟨rfl, c', ds, rfl, hc', hd'⟩ | ⟨he, hx'⟩
+      · exact ⟨.fracFirst, by simp [numTrans, isDigit], c', ds, x, rfl, hc', hd', hx⟩
+      · have hnd : isDigit c = false := by
+          cases hdc : isDigit c with
+          | false => rfl
+          | true => have := (digit_ne hdc).2.2.2; rw [he] at this; cases this
+        exact ⟨.expSign, by simp [numTrans, hnd, (isE_ne he).1, he], hx'⟩
+  · -- fracFirst
+    obtain ⟨c', ds, x, h, hc', hd, hx⟩ := hw
+    simp at h; obtain ⟨rfl, rfl⟩ := h
+    exact ⟨.fracRest, by simp [numTrans, hc'], ds, x, rfl, hd, hx⟩
+  · -- fracRest
+    obtain ⟨ds, x, h, hd, hx⟩ := hw
+    cases ds with
+    | cons d ds' =>
+      simp at h; obtain ⟨rfl, rfl⟩ := h
+      exact ⟨.fracRest, by simp [numTrans, hd.head], ds', x, rfl, hd.tail, hx⟩
+    | nil =>
+      simp only [List.nil_append] at h
+      subst h
+      obtain ⟨he, hx'⟩ := gexp_cons hx
+      have hnd : isDigit c = false := by
+        cases hdc : isDigit c with
+        | false => rfl
+        | true => have := (digit_ne hdc).2.2.2; rw [he] at this; cases this
+      exact ⟨.expSign, by simp [numTrans, hnd, he], hx'⟩
+  · -- expSign
+    cases hw with
+    | plain _ c' ds he hc hd =>
+      have := digit_ne hc
+      exact ⟨.expRest, by simp [numTrans, this.1, this.2.2.1, hc], hd⟩
+    | signed _ sg c' ds he hs hc hd =>
+      exact ⟨.expFirst, by simp [numTrans, hs], c', ds, rfl, hc, hd⟩
+  · -- expFirst
+    obtain ⟨c', ds, h, hc, hd⟩ := hw
+    cases h
+    exact ⟨.expRest, by simp [numTrans, hc], hd⟩
+  · -- expRest
+    exact ⟨.expRest, by simp [numTrans, hw.head], hw.tail⟩
+
+/-- a character that may follow a value stops the automaton in an accepting state -/
+theorem follows_stop {ctx : Ctx} {st : NumState} {c : Char} (hf : ctx.follows c = true)
+    (ha : st.accepting = true) : numTrans ctx st c = .stop := by
+  have hc : c = ' ' ∨ c = '\t' ∨ c = '\r' ∨ c = '\n' ∨ c = ',' ∨ c = ']' ∨ c = ':' ∨ c = '}' := by
+    cases ctx <;> simp [Ctx.follows, isWs] at hf <;> grind
+  cases st <;> simp [NumState.accepting] at ha <;>
+    (rcases hc with rfl | rfl | rfl | rfl | rfl | rfl | rfl | rfl <;>
+      simp [numTrans, hf] <;> decide)
+
+/-- **Soundness of the number loop**: whatever it accepts is a `number` continuation. -/
+theorem numLoop_sound {ctx : Ctx} : ∀ (l : List Char) {st : NumState} {buf : List Char} {pos : Nat}
+    {st' : NumState} {buf' r : List Char} {p : Nat},
+    numLoop ctx st buf l pos = .ok (st', buf', r, p) → st'.accepting = true →
+    ∃ w, buf' = buf ++ w ∧ l = w ++ r ∧ Suffix st w := by
+  intro l
+  induction l with
+  | nil =>
+    intro st buf pos st' buf' r p h ha
+    simp only [numLoop] at h
+    cases h
+    exact ⟨[], by simp, rfl, (suffix_nil _).mpr ha⟩
+  | cons c l ih =>
+    intro st buf pos st' buf' r p h ha
+    simp only [numLoop] at h
+    split at h
+    · rename_i st1 ht
+      obtain ⟨w, hb, hl, hs⟩ := ih h ha
+      exact ⟨c :: w, by rw [hb]; simp, by rw [hl]; rfl, suffix_step_sound ht hs⟩
+    · cases h
+      exact ⟨[], by simp, rfl, (suffix_nil _).mpr ha⟩
+    · cases h
+
+/-- **Completeness of the number loop**: a `number` continuation followed by the end of input or
+    by a character that may follow a value in this context is read entirely. -/
+theorem numLoop_complete {ctx : Ctx} : ∀ (w : List Char) {st : NumState} (buf r : List Char) (pos : Nat),
+    Suffix st w → (∀ c r', r = c :: r' → ctx.follows c = true) →
+    ∃ st' p, numLoop ctx st buf (w ++ r) pos = .ok (st', buf ++ w, r, p) ∧ st'.accepting = true := by
+  intro w
+  induction w with
+  | nil =>
+    intro st buf r pos hs hr
+    have ha := (suffix_nil _).mp hs
+    cases r with
+    | nil => exact ⟨st, pos, by simp [numLoop], ha⟩
+    | cons c r' =>
+      refine ⟨st, pos, ?_, ha⟩
+      simp only [List.nil_append, numLoop, follows_stop (hr c r' rfl) ha, List.append_nil]
+  | cons c w ih =>
+    intro st buf r pos hs hr
+    obtain ⟨st1, ht, hs1⟩ := suffix_step_complete ctx hs
+    obtain ⟨st', p, h, ha⟩ := ih (buf ++ [c]) r (pos + c.utf8Size) hs1 hr
+    refine ⟨st', p, ?_, ha⟩
+    simp only [List.cons_append, numLoop, ht]
+    rw [h]; simp
 
 end JsonVerif
